@@ -87,13 +87,21 @@ def gen_state(rng):
             ub.set_ub((rot_from_rotvec([rng.uniform(-1, 1) for _ in range(3)]) * 1.5).tolist())
         frames = []
         for attr_h, attr_p in (("n_hkl", "n_phi"), ("surf_nhkl", "surf_nphi")):
-            k = rng.choice(["default", "hkl", "phi"])
+            k = rng.choice(["default", "hkl", "phi", "hkl", "phi", "array-int", "array-float", "ints"])
             frames.append(k)
             v = (rng.uniform(-1, 1), rng.uniform(-1, 1), rng.uniform(0.2, 1))
             if k == "hkl":
                 setattr(ub, attr_h, v)
             elif k == "phi":
                 setattr(ub, attr_p, v)
+            elif k in ("array-int", "array-float"):
+                # through ReferenceVector.set_array with a (3, 1) array, integer or float dtype
+                rv = ub.reference if attr_h == "n_hkl" else ub.surface
+                arr = np.array([[rng.randint(-2, 2)], [rng.randint(-2, 2)], [rng.randint(1, 3)]], dtype=(int if k == "array-int" else float))
+                rv.set_array(arr)
+            else:
+                # Python ints are numbers too (numpy scalars handed to the tuple setters are outside the declared Tuple[float, float, float])
+                setattr(ub, rng.choice([attr_h, attr_p]), (rng.randint(-2, 2), rng.randint(-2, 2), rng.randint(1, 3)))
         c = Constraints()
         shape = rng.choice(["empty", "one", "two", "mode", "void", "history"])
         try:
